@@ -87,7 +87,7 @@ def _(self: Ref['mqtt.client.pubsubs.MQTTProtocol']):
     requires(is_obj(self.addr))
     requires(any_state(self))
     raises(MQTTStateError, when=not (self.state == self.CONNECTED))
-    modifies(self.transport.tr_out, self.transport.tr_closes, allocates())
+    modifies(self.transport.tr_out, self.transport.tr_closes, self.g_sent_disconnect, allocates())
     ensures_raise(out(self) == old(out(self)) and unchanged(self.transport.tr_closes))
     # DISCONNECT is written only here, together with the request to close
     ensures(out(self) == old(out(self)) + lb(sDISCONNECT()) and self.transport.tr_closes == old(self.transport.tr_closes) + 1)
@@ -107,7 +107,7 @@ def _(self: Ref['mqtt.client.pubsubs.MQTTProtocol'], clientId: Str, keepalive: i
            or (is_str(willTopic) and not (sok(willTopic) and sok(willMessage)))
            or (is_str(username) and not sok(username)) or (is_str(password) and not sok(password)))
     idle = self.state == self.IDLE
-    modifies(self._cleanStart, self._version, self.transport.tr_out, self.state, self.connReq, allocates())
+    modifies(self._cleanStart, self._version, self.transport.tr_out, self.state, self.connReq, self.g_sent_connect, allocates())
     ensures(base_ok(self))
     ensures(implies(self.state == self.CONNECTED, alarms_set(self)))
     ensures(implies(self.state == self.CONNECTING, connecting(self)))
